@@ -448,6 +448,7 @@ def run(ck):
     _gfe.fast_loop_epilogue(ck, P)
     from .. import linear as _lin
     ck.floor("SIB/same-terms-same-threshold", _lin.same_threshold(ck, P, [f for f in sorted(P.fns.values(), key=lambda f: f.path) if f.path.startswith(Z + "inflate::")]), 1)
+    ck.floor("PAIR/second-level-bits", _lin.second_level_bits(ck, P, [f for f in sorted(P.fns.values(), key=lambda f: f.path) if f.path.startswith(Z + "inflate::")]), 3)
     n = decoders.check_rejections(ck, P, "ATOM/rejection", only_impls={BACK, FAST_BACK})
     ck.floor("ATOM/rejection", n, 17)
     decoders.check_table_fields(ck, P, "ATOM/header-fields", impls=(BACK,))
